@@ -156,9 +156,71 @@ fn run_enum(ctx: &Ctx) -> Report {
     })
 }
 
+/// every sequence (fixed depth) of *valid* bars over {-1, -0.0, 0.0, 1}^5: the harness bar, the second
+/// user type and ta::DataItem must give bit-identical outputs (signed zeros and negative prices included)
+fn run_enum_implementors(ctx: &Ctx) -> Report {
+    let vals = [-1.0f64, -0.0, 0.0, 1.0];
+    let mut alphabet: Vec<Bar> = Vec::new();
+    for o in vals {
+        for h in vals {
+            for l in vals {
+                for c in vals {
+                    for v in [-0.0f64, 0.0, 2.0] {
+                        let b = Bar { o, h, l, c, v };
+                        if b.is_valid() {
+                            alphabet.push(b);
+                        }
+                    }
+                }
+            }
+        }
+    }
+    let depth = ctx.pick(2usize, 3usize);
+    let mut jobs = Vec::new();
+    for kind in ALL_KINDS {
+        for n in 1..=2usize {
+            if kind.n_periods() == 0 && n > 1 {
+                continue;
+            }
+            jobs.push((kind, n));
+        }
+    }
+    let alen = alphabet.len();
+    par_run(jobs, ctx.threads, move |(kind, n), rep| {
+        let mut p = Params::new1(*kind, *n);
+        match kind {
+            Kind::Macd | Kind::Ppo => p.p = [*n, *n + 1, 2],
+            Kind::Slow => p.p = [*n, 2, 0],
+            Kind::Bb | Kind::Kc | Kind::Ce => p.k = 2.0,
+            _ => {}
+        }
+        let total = alen.pow(depth as u32);
+        // all sequences for depth 2; a deterministic 1-in-k subsample for depth 3 to bound the run
+        let stride = if depth >= 3 { 7 } else { 1 };
+        let mut code = 0usize;
+        while code < total {
+            let mut c = code;
+            let mut seq = Vec::with_capacity(depth);
+            for _ in 0..depth {
+                seq.push(alphabet[c % alen]);
+                c /= alen;
+            }
+            let ob: Vec<Op> = seq.iter().map(|b| Op::NextBar(*b)).collect();
+            let o2: Vec<Op> = seq.iter().map(|b| Op::NextBar2(*b)).collect();
+            let oi: Vec<Op> = seq.iter().map(|b| Op::NextItem(*b)).collect();
+            twin(rep, &p, "bar_vs_dataitem", &ob, &oi, 0.0, 0.0, true);
+            twin(rep, &p, "bar_vs_second_user_type", &ob, &o2, 0.0, 0.0, true);
+            rep.count("enum.implementor_sequences");
+            rep.distinct_by_construction += 1;
+            code += stride;
+        }
+    })
+}
+
 pub fn run(ctx: &Ctx) -> Report {
     let mut rep = run_random(ctx);
     rep.merge(run_enum(ctx));
+    rep.merge(run_enum_implementors(ctx));
     if ctx.only.is_none() && rep.counters.get("enum.edge_value_sequences").copied().unwrap_or(0) == 0 {
         rep.inconclusive.push("coverage floor missed: enum.edge_value_sequences = 0".into());
     }
